@@ -28,10 +28,16 @@ def doc_operation(doc, ep):
     return None
 
 
-def declared_params(o, item):
-    """operation-level parameters first, then path-item ones not overridden: (name, in) -> required"""
+def declared_params(o, item, doc=None):
+    """operation-level parameters first, then path-item ones not overridden: (name, in) -> parameter object; references to
+    components/parameters are resolved against the DOCUMENT (the declared name is the component's `name`, not its key)"""
     out = {}
     for p in (o.get("parameters") or []) + (item.get("parameters") or []):
+        if "$ref" in p:
+            key = p["$ref"].rsplit("/", 1)[1]
+            p = ((doc or {}).get("components", {}).get("parameters", {}) or {}).get(key)
+            if p is None:
+                continue
         out.setdefault((p["name"], p["in"]), p)
     return out
 
@@ -175,7 +181,7 @@ def expectation(doc, ep, vec):
     if not found:
         return None
     path, method, o, item = found
-    params = declared_params(o, item)
+    params = declared_params(o, item, doc)
     exp = {"method": method.upper(), "query": {}, "headers": {}, "cookies": {}, "absent_query": [], "absent_headers": [], "absent_cookies": [], "path": path, "hostile_path": False}
     by_loc = {"query": ep.query_parameters, "header": ep.header_parameters, "cookie": ep.cookie_parameters, "path": ep.path_parameters}
     # every parameter the DOCUMENT declares for this operation (operation level + path-item level) must be an argument of the function
